@@ -33,7 +33,7 @@ def cases(draw, exclude: frozenset = frozenset()):
 	mods = sorted(graph)
 	ops = []
 	for _ in range(rnd.randint(3, 9)):
-		k = rnd.choice(['edit', 'edit', 'edit_old_mtime', 'run', 'run', 'run', 'run_nocache', 'clear', 'truncate', 'touch_grammar'])
+		k = rnd.choice(['edit', 'edit', 'edit_old_mtime', 'edit_same_second', 'run', 'run', 'run', 'run_nocache', 'clear', 'truncate', 'touch_grammar'])
 		m = rnd.choice(mods)
 		visible = rnd.randint(0, P.VISIBLE[m] - 1)
 		if 'transitive-visible-edit' in exclude and P.dependents(graph, m) - {x for x in graph if m in graph[x]}:
@@ -90,7 +90,7 @@ def judge(scratch: str, case: dict) -> tuple[list[tuple[str, str]], dict]:
 	# modules that others import may lie directly in the project root (imported by an undotted module path)
 	pkg = {m: ('' if case.get('root_deps') and P.dependents(graph, m) else 'src') for m in graph}
 	work = tempfile.mkdtemp(prefix='c05-', dir=scratch)
-	info = {'warm_after_visible_edit': False, 'truncation_read': False, 'runs': 0, 'mtime_recurrence': False}
+	info = {'warm_after_visible_edit': False, 'truncation_read': False, 'runs': 0, 'mtime_recurrence': False, 'same_second_edit': False}
 	fails: list[tuple[str, str]] = []
 	trace: list[str] = []
 	try:
@@ -135,9 +135,10 @@ def judge(scratch: str, case: dict) -> tuple[list[tuple[str, str]], dict]:
 		for kind, m, visible, invisible, pick, offset in case['ops']:
 			if fails:
 				break
-			if kind in ('edit', 'edit_old_mtime'):
+			if kind in ('edit', 'edit_old_mtime', 'edit_same_second'):
 				state[m] = (visible, invisible)
 				path_m = os.path.join(proj, pkg[m], m + '.py')
+				mtime_before = os.stat(path_m).st_mtime_ns if os.path.exists(path_m) else None
 				P.bump_write(path_m, P.module_source(m, pkg, visible, invisible, graph))
 				# the new content gets an mtime the file already had at an earlier cached run (a timestamp-preserving restore), but not the one of the latest run
 				olds = [t for t in mtimes_at_runs[m][:-1] if t != mtimes_at_runs[m][-1]] if kind == 'edit_old_mtime' and mtimes_at_runs[m] else []
@@ -146,6 +147,14 @@ def judge(scratch: str, case: dict) -> tuple[list[tuple[str, str]], dict]:
 					os.utime(path_m, ns=(t, t))
 					info['mtime_recurrence'] = True
 					trace.append(f'edit({m}, visible={visible}, body={invisible}, mtime of run #{mtimes_at_runs[m].index(t) + 1} restored)')
+				elif kind == 'edit_same_second' and mtime_before is not None:
+					# two saves within one second (an editor and a formatter, a checkout): the new mtime differs from the old one by milliseconds only
+					t = mtime_before + (1 + pick % 900) * 1_000_000
+					if t // 1_000_000_000 != mtime_before // 1_000_000_000:
+						t = mtime_before + 1_000_000
+					os.utime(path_m, ns=(t, t))
+					info['same_second_edit'] = True
+					trace.append(f'edit({m}, visible={visible}, body={invisible}, mtime +{(t - mtime_before) // 1_000_000} ms)')
 				else:
 					trace.append(f'edit({m}, visible={visible}, body={invisible})')
 				if P.dependents(graph, m):
@@ -239,7 +248,7 @@ def shard(ctx: core.Ctx) -> None:
 		fails, info = run_judge(ctx.scratch, case)
 		ctx.extra['runs'] = ctx.extra.get('runs', 0) + info['runs']
 		ctx.case([case['graph'], case['ops']], info['warm_after_visible_edit'] or info['truncation_read'], sample={'graph': case['graph'], 'history': [f'{o[0]}({o[1]},{o[2]},{o[3]})' if o[0] == 'edit' else o[0] for o in case['ops']]},
-			labels=['history', case['graph']] + (['grammar-newer-than-sources'] if case.get('grammar_newer') else []) + (['dependencies-in-project-root'] if case.get('root_deps') else []) + [k for k in ('warm_after_visible_edit', 'truncation_read', 'mtime_recurrence') if info[k]])
+			labels=['history', case['graph']] + (['grammar-newer-than-sources'] if case.get('grammar_newer') else []) + (['dependencies-in-project-root'] if case.get('root_deps') else []) + [k for k in ('warm_after_visible_edit', 'truncation_read', 'mtime_recurrence', 'same_second_edit') if info[k]])
 		for sig, detail in fails:
 			ctx.fail(sig, detail, case)
 
